@@ -332,12 +332,15 @@ static void *trampoline(void *p)
 int __real_pthread_create(pthread_t *, const pthread_attr_t *, void *(*)(void *), void *);
 int __real_pthread_join(pthread_t, void **);
 
+static __thread int last_created;
 int mcrt_create_thread(pthread_t *out, const pthread_attr_t *attr, void *(*fn)(void *), void *arg)
 {
-    int id = nthreads, rc, ds = PTHREAD_CREATE_JOINABLE;
+    int id, rc, ds = PTHREAD_CREATE_JOINABLE;
     Thread *t;
-    if (id >= MAXT) mc_engine_error("too many threads");
     sched_point(OP_CREATE, NULL, 0);
+    id = nthreads;                       /* taken after the scheduling point: another thread may have created one meanwhile */
+    if (id >= MAXT) mc_engine_error("too many threads");
+    last_created = id;
     t = &T[id]; memset(t, 0, sizeof *t);
     t->used = 1; t->fn = fn; t->arg = arg;
     if (attr) pthread_attr_getdetachstate(attr, &ds);
@@ -374,7 +377,7 @@ void mcrt_join_thread(int id, void **ret)
     __real_pthread_join(T[id].real, ret);
 }
 
-int mc_thread_create(void *(*fn)(void *), void *arg) { pthread_t th; int id = nthreads; mcrt_create_thread(&th, NULL, fn, arg); return id; }
+int mc_thread_create(void *(*fn)(void *), void *arg) { pthread_t th; mcrt_create_thread(&th, NULL, fn, arg); return last_created; }
 void mc_thread_join(int tid) { mcrt_join_thread(tid, NULL); }
 
 /* ------------------------------------------------------------------ one execution (child process) */
@@ -459,8 +462,9 @@ static int run_child(const uint8_t *prefix, const uint8_t *prefix_n, int len, in
     { static long seq; ctl->exec_id = (long)getpid() * 1000000L + (++seq); }
     pid = fork();
     if (pid < 0) { perror("fork"); exit(2); }
-    if (pid == 0) { run_execution(); _exit(0); }
+    if (pid == 0) { alarm(600); run_execution(); _exit(0); }      /* wall-clock watchdog: a stuck execution is an engine error, never a hang of the check */
     while (waitpid(pid, &st, 0) < 0 && errno == EINTR) ;
+    if (WIFSIGNALED(st) && WTERMSIG(st) == SIGALRM) { fprintf(stderr, "ENGINE: one execution did not finish within 600 s of wall-clock time (engine hang), command: %s\n", cmdline); exit(2); }
     if (WIFSIGNALED(st)) {
         ctl->violated = 1; snprintf(ctl->prop, sizeof ctl->prop, "SCHED");
         snprintf(ctl->sig, sizeof ctl->sig, "crash/signal-%d", WTERMSIG(st));
